@@ -668,7 +668,12 @@ func driveConvertReusedDst(s *shardSet, rng *rand.Rand, thorough bool) {
 					w.Alloc(sty, 1, len(vals), len(vals))
 					sv := len(w.Views) - 1
 					in := make([]int64, len(vals))
-					for i, v := range vals { // the same amplitude in every integer format: v scaled to the format's depth
+					for i, v := range vals {
+						if round == 1 { // the same NUMBER in every format (its code means something else at every depth)
+							in[i] = v
+							continue
+						}
+						// the same amplitude in every integer format: v scaled to the format's depth
 						in[i] = v << uint(kindBits(sty)-8)
 						if kindClass(KindOf(sty)) == "Unsigned" {
 							in[i] = (v + 128) << uint(kindBits(sty)-8)
@@ -734,5 +739,43 @@ func driveZeroSigns(s *shardSet) {
 			w.WriteFloats(0, []float64{0, 0, nz, 0})
 			w.Convert("FloatAsFloat", 0, 1)
 		}
+	}
+}
+
+// driveConcurrentAppend: growing and in-place buffer appends from several goroutines at once, each on buffers of its
+// own (nothing is shared) but all of ONE element type per round: an append may not depend on what other goroutines
+// append (staging areas, size caches, pools keyed by element type).
+func driveConcurrentAppend(s *shardSet, rng *rand.Rand, thorough bool) {
+	rounds := []string{"int16", "float32", "uint8"}
+	if thorough {
+		rounds = BuiltinTypes
+	}
+	for ri, ty := range rounds {
+		kt := KindOf(ty)
+		var wg sync.WaitGroup
+		concurrentRecording = true
+		for g := range s.ws {
+			wg.Add(1)
+			go func(g int) {
+				defer wg.Done()
+				w := s.ws[g]
+				r := rand.New(rand.NewSource(int64(g)*131 + int64(ri)))
+				for t := 0; t < 6; t++ {
+					w.Reset()
+					ch := 1 + r.Intn(3)
+					w.Alloc(ty, ch, 0, 1+r.Intn(3))
+					for k := 0; k < 12; k++ {
+						n := 1 + r.Intn(40)
+						w.Alloc(ty, ch, n, n)
+						src := len(w.Views) - 1
+						w.Write(src, kt, w.stamps(ch*n))
+						w.Append(0, src)
+						w.Drop(src)
+					}
+				}
+			}(g)
+		}
+		wg.Wait()
+		concurrentRecording = false
 	}
 }
